@@ -213,6 +213,20 @@ Proof.
     intros k [<-|[]]. rewrite matcher_cmp_refl. discriminate.
 Qed.
 
+(* ------------------------------------------------------------------------- quantile labels *)
+Lemma qlabel_no_dot fc fd : ~ In 46 (qlabel fc fd).
+Proof.
+  unfold qlabel. destruct (str_eqb fc [48]); [intros [H|[H|[H|[]]]]; discriminate|].
+  destruct (str_eqb fc [49]); [intros [H|[H|[H|[]]]]; discriminate|].
+  intros [H|H]; [discriminate|]. apply filter_In in H as [_ H]. discriminate.
+Qed.
+
+Lemma qlabel_cases fc fd : qlabel fc fd = [109; 105; 110] \/ qlabel fc fd = [109; 97; 120]
+  \/ exists r, qlabel fc fd = 112 :: r.
+Proof.
+  unfold qlabel. destruct (str_eqb fc [48]); auto. destruct (str_eqb fc [49]); auto. right. right. eauto.
+Qed.
+
 Section PrecProofs.
 Variable O : FloatOps.
 Notation Fl := (F O).
